@@ -14,11 +14,17 @@ package main
 import (
 	"encoding/json"
 	"fmt"
+	"os/signal"
+	"syscall"
 
 	"verif/harness/internal/vlib"
 )
 
-func main() { vlib.Main(run, replay) }
+func main() {
+	// a write beyond RLIMIT_FSIZE raises SIGXFSZ; the harness wants the EFBIG instead
+	signal.Ignore(syscall.SIGXFSZ)
+	vlib.Main(run, replay)
+}
 
 func argSet(c *vlib.Ctx, name string) bool {
 	for _, a := range c.Args {
